@@ -62,7 +62,7 @@ def r_alloc(ctx, P):
                 if tn and not is_narrow_type(b, a):
                     # only integer parameters carry a declared length; references to parsed structures are not lengths
                     cty = bodies[callee].r['locals'][k + 1]['ty'] if k + 1 < len(bodies[callee].r['locals']) else ''
-                    if cty in ('usize', 'u32', 'u64', 'i64', 'isize', 'u128'):
+                    if re.match(r'^(std::option::Option<)?(usize|u32|u64|i64|isize|u128)>?$', cty):
                         tainted.add((callee, k + 1))
                         changed = True
     rev = errs.load_reviewed(os.path.join(HERE, 'reviewed', 'alloc_reviewed.txt'))
